@@ -190,6 +190,7 @@ class P(Prop):
             if len(c.graph.nodes) > 13:
                 continue
             self.oracle(c)
+            self.again_after_edit(c, lambda: self.oracle(c, tag=":after-edit"), p=0.25)
             if i % 3 == 0:
                 # the same Circuit object again after an in-place edit that keeps nodes and edges (a type change):
                 # every query must describe the circuit as it is now
